@@ -1,7 +1,6 @@
 #!/bin/bash
 # Build the hand-written Coq library (offline, from files on disk only).
-#   ./setup.sh                 build everything (keeps going past a failing file); fails only if a file needed by a
-#                              property claimed in MANIFEST.json does not build
+#   ./setup.sh                 build every file needed by a property claimed in MANIFEST.json (full .vo builds)
 #   ./setup.sh --targets "a.vo b.vo"   what a check runs first: rebuild just what that property needs, if stale
 cd "$(dirname "$0")/coq" || exit 1
 { echo "-Q . PW"; echo "-arg -w -arg -all"; find . -name '*.v' | sed 's|^\./||' | LC_ALL=C sort; } > _CoqProject.new
@@ -17,7 +16,7 @@ if [ "$1" = "--targets" ]; then
   rm -f .make.$$.log
   exit $rc
 fi
-timeout 3000 make -j16 -k > .make.log 2>&1 || { echo "some library files do not build:"; grep -A8 '^File\|Error' .make.log | head -60; }
+# only what the claimed properties need is built here (work in progress for unclaimed properties is not)
 claimed=$(/venv/bin/python -c "
 import json
 m = json.load(open('../MANIFEST.json'))
